@@ -362,9 +362,57 @@ func c16R3(c *Ctx) {
 				c.check(okCut, nm.fn+"/cut-at-marker", c.ipos(ci), "line is cut at the last '#TYPE:' when found", "the marker index is not used to cut the line on its >= 0 edge")
 			}
 		}
+		// a cut counts only if the cut line is what the function goes on with (returned, or handed to the stripper)
+		flows := func(sl *ssa.Slice) bool {
+			found := false
+			var visit func(v ssa.Value, depth int)
+			visit = func(v ssa.Value, depth int) {
+				if depth > 6 || found {
+					return
+				}
+				for _, r := range referrersOf(v) {
+					switch x := r.(type) {
+					case *ssa.Return:
+						found = true
+					case *ssa.Phi:
+						visit(x, depth+1)
+					case *ssa.Call:
+						if calleeID(&x.Call) == tT+"stripTmuxStatusLine" || calleeID(&x.Call) == "trzsz.decodeRelayBufferString" || calleeID(&x.Call) == "string" {
+							found = true
+						}
+					case *ssa.Convert, *ssa.ChangeType, *ssa.Slice:
+						visit(x.(ssa.Value), depth+1)
+					case *ssa.Store:
+						found = found || x.Val == v
+					}
+				}
+			}
+			visit(sl, 0)
+			return found
+		}
+		for _, ci := range callsIn(f, idIs("bytes.LastIndex")) {
+			if !isMarkerExpr(ci.Common().Args[1]) {
+				continue
+			}
+			used := false
+			for _, r := range referrersOf(ci.Value()) {
+				if sl, ok := r.(*ssa.Slice); ok && sl.Low == ci.Value() && flows(sl) {
+					used = true
+				}
+			}
+			c.check(used, nm.fn+"/marker-cut-used", c.ipos(ci), "the line cut at the marker is the line the function goes on with", "the cut at the marker is computed but the uncut line is used")
+		}
 		for _, ci := range callsIn(f, idIs("bytes.LastIndexByte")) {
 			if isConstIntV('#')(ci.Common().Args[1]) {
 				fbs++
+				used := false
+				for _, r := range referrersOf(ci.Value()) {
+					if sl, ok := r.(*ssa.Slice); ok && sl.Low == ci.Value() && flows(sl) &&
+						(factCmp(factsAt(sl.Block()), token.GTR, isValue(ci.Value()), isConstIntV(0)) || factCmp(factsAt(sl.Block()), token.GEQ, isValue(ci.Value()), isConstIntV(0))) {
+						used = true
+					}
+				}
+				c.check(used, nm.fn+"/fallback-cut-used", c.ipos(ci), "without the marker the line is cut at the last '#' (text in front of it is dropped)", "the fallback cut at the last '#' is not applied to the line the function goes on with")
 			}
 		}
 		c.check(cuts == nm.cuts, nm.fn+"/marker-built-from-type", c.pos(f.Pos()), fmt.Sprintf("%d cut(s) at '#'+expectType+':'", cuts), fmt.Sprintf("expected %d marker cut(s) built from the expected type, found %d", nm.cuts, cuts))
